@@ -988,18 +988,22 @@ class _Boom(OSError):
 def resave_cases(I, r, n, out):
     ircdb = I.ircdb
     import supybot.utils.file as ufile
+    import supybot.conf as conf
     dflt = ufile.AtomicFile.default
     saved_cfg = (dflt.tmpDir, dflt.backupDir)
+    breg = conf.supybot.directories.backup          # the registry value the bot itself installs as AtomicFile.default.backupDir
+    saved_breg = breg.value
     scratch = os.path.dirname(fresh_file(I, 'cfgprobe'))
     bdir = os.path.join(scratch, 'backups'); tdir = os.path.join(scratch, 'tmpdir')
     for d_ in (bdir, tdir):
         os.makedirs(d_, exist_ok=True)
     try:
-        _resave_cases(I, r, n, out, ufile, bdir, tdir)
+        _resave_cases(I, r, n, out, ufile, bdir, tdir, breg)
     finally:
+        breg.setValue(saved_breg)
         dflt.tmpDir, dflt.backupDir = saved_cfg
 
-def _resave_cases(I, r, n, out, ufile, bdir, tdir):
+def _resave_cases(I, r, n, out, ufile, bdir, tdir, breg):
     ircdb = I.ircdb
     for _ in range(n):
         which = r.choice(['users', 'users', 'ignores', 'channels', 'networks'])
@@ -1008,10 +1012,17 @@ def _resave_cases(I, r, n, out, ufile, bdir, tdir):
         # (no backups), supybot.directories.data.tmp unset / a directory
         backup = r.choice([None, None, bdir, '/dev/null', '/dev/null'])
         tmpd = r.choice([None, None, tdir])
-        ufile.AtomicFile.default.backupDir = backup
+        # half of the time the setting arrives the way it does in the bot: supybot.directories.backup is set and the
+        # registry value itself (not a string) is what AtomicFile.default.backupDir holds (conf._update_backup)
+        via_registry = backup is not None and r.random() < 0.6
+        if via_registry:
+            breg.setValue(backup)
+            ufile.AtomicFile.default.backupDir = breg
+        else:
+            ufile.AtomicFile.default.backupDir = backup
         ufile.AtomicFile.default.tmpDir = tmpd
-        cfg_tag = 'backup=%s,tmp=%s' % ('unset' if backup is None else ('devnull' if backup == '/dev/null' else 'dir'),
-                                        'unset' if tmpd is None else 'dir')
+        cfg_tag = 'backup=%s%s,tmp=%s' % ('unset' if backup is None else ('devnull' if backup == '/dev/null' else 'dir'),
+                                          '(registry)' if via_registry else '', 'unset' if tmpd is None else 'dir')
         fn = fresh_file(I, 're' + which)
         if os.path.exists(fn): os.unlink(fn)
         if which == 'users':
@@ -1060,7 +1071,7 @@ def _resave_cases(I, r, n, out, ufile, bdir, tdir):
             continue
         obj.filename = fn
         B = snap()
-        failed = False
+        failed = False; flush_exc = None
         if fault:
             # the k-th write of this flush raises (disk full / I/O error)
             real_write = ufile.AtomicFile.write
@@ -1073,10 +1084,12 @@ def _resave_cases(I, r, n, out, ufile, bdir, tdir):
             try:
                 try: obj.flush()
                 except _Boom: failed = True
+                except Exception as e_: flush_exc = e_
             finally:
                 ufile.AtomicFile.write = real_write
         else:
-            obj.flush()
+            try: obj.flush()
+            except Exception as e_: flush_exc = e_
         ircdb.IrcUserCreator.u = None; ircdb.IrcChannelCreator.name = None; ircdb.IrcNetworkCreator.name = None
         I.rec.clear()
         obj.reload()
@@ -1086,7 +1099,9 @@ def _resave_cases(I, r, n, out, ufile, bdir, tdir):
             ok = (C == A or C == B); want = 'the last saved state %r or the new one %r' % (A, B)
         else:
             ok = (C == B); want = 'the state that was flushed: %r' % (B,)
-        ok = ok and I.rec.exc is None
+        ok = ok and I.rec.exc is None and flush_exc is None
+        if flush_exc is not None:
+            want = 'no exception from flush() (it raised %s: %s); ' % (type(flush_exc).__name__, flush_exc) + want
         tags = ('resave', which, what, 'resave-' + cfg_tag) + (('flush-failed',) if failed else ())
         c = Case({'db': which, 'op': 'resave', 'saved_first': repr(A), 'then': what, 'fault_at_write': (k if fault else None),
                   'atomicfile': cfg_tag},
